@@ -29,6 +29,8 @@ pub struct Profile {
     /// allow the shapes known to emit non-compiling code (C11 only)
     pub c11_shapes: bool,
     pub repair: bool,
+    /// Pratt operator tokens come from the ordinary token pool (conflicts possible; C10)
+    pub pratt_shared_ops: bool,
 }
 
 impl Profile {
@@ -54,6 +56,7 @@ impl Profile {
             symbols: true,
             c11_shapes: false,
             repair: true,
+            pratt_shared_ops: false,
         }
     }
     pub fn ebnf() -> Profile {
@@ -179,8 +182,13 @@ impl<'p, 'd> Builder<'p, 'd> {
             let n_toks = 1 + self.d.below(2);
             let mut toks = vec![];
             for _ in 0..n_toks {
-                toks.push(self.fresh_token(true)?);
+                if self.p.pratt_shared_ops && self.d.chance(2, 3) {
+                    toks.push(self.d.below(self.n_plain));
+                } else {
+                    toks.push(self.fresh_token(true)?);
+                }
             }
+            toks.dedup();
             let right = self.d.chance(1, 3);
             if right && matches!(kind, 0) {
                 for t in &toks {
@@ -536,6 +544,9 @@ impl Deco<'_, '_, '_> {
                             if rec {
                                 // recursive operator branches: trailing rename / action only (I-6)
                                 let mut items = Self::as_list(c);
+                                if self.b.p.preds && self.b.d.chance(1, 6) {
+                                    items.insert(0, Regex::Pred(Some(1)));
+                                }
                                 if self.b.p.nodeops && self.b.d.chance(1, 2) {
                                     let name = self.node_name();
                                     items.push(Regex::Rename(name));
